@@ -1,5 +1,7 @@
 import Tyme.Lemmas.Week
+import Tyme.Lemmas.LunarWeek
 import Tyme.Spec.Week
+import Tyme.Thm.C02
 /-!
 C14 — weeks of a month: seven consecutive days, right start weekday, no day lost.
 Property theorems only (helpers live in `Tyme/Lemmas/Week.lean`); every obligation is named `C14_*`.
@@ -56,7 +58,7 @@ theorem C14_gen_next_7n {M : Type} (O : MonthOps M) (ok : M → Prop) (L : Laws 
               (n < 0 ∧ ∃ m', ok m' ∧ O.prev m' = none ∧ firstJ O w + 7 * n + 7 ≤ O.first m') :=
   weekNext_spec O ok L w hw n
 
-/-! ## lunar half: the same code over an abstract month sequence
+/-! ## lunar half, abstract form: the same code over an abstract month sequence
 
 `LunarMonth::get_week_count`, `LunarWeek::{new, get_first_day, next}` are the same text as the civil functions.
 For ANY sequence of consecutive months k = lo..hi with first-day numbers `first k` and lengths `len k`
@@ -464,5 +466,219 @@ example :
   refine ⟨?_, ?_, by decide +kernel, by decide +kernel, by decide +kernel⟩
   · intro k _ _; dsimp only; split <;> split <;> omega
   · intro k _ _; dsimp only; split <;> omega
+
+/-! ## LUNAR HALF: `LunarMonth::get_week_count/get_weeks`, `LunarWeek::{new, get_first_day, get_days, next}` over the
+extracted month table (`realEph`: re-extracted from /repo by tools/gen_eph.py on every run)
+
+Model: `Tyme/Model/LunarWeek.lean` (`LWk.lunarWeekNew`, `lunarWeeks`, `lunarWeekFirstDay`, `lunarWeekDays`,
+`lunarWeekNext`: the literal lunar code, whose weekday tests and day stepping go through the civil day and
+`SolarDay::get_lunar_day`); `LWk.lunarOps E` is the lunar instance of the generic month type of `C14_gen_*`
+(first day number, day count, `LunarMonth::next(±1)`), `LWk.lunarOpsOn E a b` the same with `next`/`prev` cut at the
+ends of the interval of lunar years a..b.
+
+Day number of the first day of week `w`: `firstJ (lunarOps realEph) w = first(month) + 7·index − off`.
+The month table tiles (consecutive months abut, 29/30 days) on the lunar years 0..7, 9..22, 25..235, 237..238,
+240..9998 (`C02_good_intervals`); the years 8, 23, 24, 236, 239 are the D4 reform junctions (known findings).
+The theorems about the literal code additionally need day 1 of every month to be a civil date of 0001..9999, which
+fails for lunar year 0; hence `LunarGoodInterval`. -/
+open LWk Lunar
+
+/-- the intervals of lunar years on which the lunar-week theorems hold -/
+def LunarGoodInterval (a b : Int) : Prop :=
+  (a = 1 ∧ b = 7) ∨ (a = 9 ∧ b = 22) ∨ (a = 25 ∧ b = 235) ∨ (a = 237 ∧ b = 238) ∨ (a = 240 ∧ b = 9998)
+
+/-- a well-formed lunar week of the interval: listed month of years a..b, start 0..6, index below the week count -/
+def LunarWeekOk (a b : Int) (w : LunarWeek) : Prop := WeekOk (lunarOpsOn realEph a b) (okOn realEph a b) w
+
+/-- (1)+(2) the lunar months of the extracted table satisfy the month laws of the generic week theorems on every
+tiling interval: `next(1)`/`next(-1)` give the adjacent month, whose first day is exactly `len` days away, and
+8 ≤ len ≤ 36 (in fact 29 or 30).  Hence `C14_gen_next_7n` etc. apply to `lunarOpsOn realEph a b`. -/
+theorem C14_lunar_real_laws :
+    Laws (lunarOpsOn realEph 0 7) (okOn realEph 0 7) ∧ Laws (lunarOpsOn realEph 9 22) (okOn realEph 9 22) ∧
+    Laws (lunarOpsOn realEph 25 235) (okOn realEph 25 235) ∧ Laws (lunarOpsOn realEph 237 238) (okOn realEph 237 238) ∧
+    Laws (lunarOpsOn realEph 240 9998) (okOn realEph 240 9998) := by
+  obtain ⟨t1, t2, t3, t4, t5⟩ := C02_good_intervals
+  exact ⟨lunarLaws _ realEph_leap_le _ _ t1, lunarLaws _ realEph_leap_le _ _ t2, lunarLaws _ realEph_leap_le _ _ t3,
+    lunarLaws _ realEph_leap_le _ _ t4, lunarLaws _ realEph_leap_le _ _ t5⟩
+
+/-- on the good intervals the table tiles AND every month begins on a civil date of 0001..9999 (first days of
+the lunar years 1, 9, 25, 237, 240 ≥ 0001-01-01; of the years 8, 23, 236, 239, 9999 ≤ 10000-01-01: kernel evaluation
+of the extracted table) -/
+theorem C14_lunar_real_good (a b : Int) (h : LunarGoodInterval a b) : Good realEph a b := by
+  obtain ⟨t1, t2, t3, t4, t5⟩ := C02_good_intervals
+  obtain ⟨⟨l1, l2, l3, l4, l5⟩, ⟨u1, u2, u3, u4, u5⟩⟩ := real_ends
+  have t1' : TilesOn realEph 1 7 := fun y h1 h2 => t1 y (by omega) h2
+  rcases h with ⟨rfl, rfl⟩ | ⟨rfl, rfl⟩ | ⟨rfl, rfl⟩ | ⟨rfl, rfl⟩ | ⟨rfl, rfl⟩
+  · exact ⟨realEph_leap_le, by omega, by omega, t1', l1, u1⟩
+  · exact ⟨realEph_leap_le, by omega, by omega, t2, l2, u2⟩
+  · exact ⟨realEph_leap_le, by omega, by omega, t3, l3, u3⟩
+  · exact ⟨realEph_leap_le, by omega, by omega, t4, l4, u4⟩
+  · exact ⟨realEph_leap_le, by omega, by omega, t5, l5, u5⟩
+
+/-- `LunarWeek::new` accepts exactly: a constructible lunar month, a start weekday 0..6 and an index 0..5 below the
+week count (ALL arguments, any year) -/
+theorem C14_lunar_real_new_iff (y m i s : Int) (w : LunarWeek) :
+    lunarWeekNew realEph y m i s = some w ↔
+      ∃ x, fromYm realEph y m = some x ∧ w = ⟨x, i, s⟩ ∧ 0 ≤ s ∧ s ≤ 6 ∧ 0 ≤ i ∧ i ≤ 5 ∧ i < monthWeekCount realEph x s :=
+  lunarWeekNew_iff realEph y m i s w
+
+/-- the week count is 5 or 6 and is exactly the number of start-aligned 7-day blocks that meet the month -/
+theorem C14_lunar_real_count (a b : Int) (h : LunarGoodInterval a b) (x : Month) (hx : okOn realEph a b x) (s i : Int) :
+    5 ≤ monthWeekCount realEph x s ∧ monthWeekCount realEph x s ≤ 6 ∧
+    ((0 ≤ i ∧ i < monthWeekCount realEph x s) ↔
+      (firstJ (lunarOps realEph) ⟨x, i, s⟩ ≤ Lunar.first realEph x + Lunar.len realEph x - 1 ∧
+        Lunar.first realEph x ≤ firstJ (lunarOps realEph) ⟨x, i, s⟩ + 6)) := by
+  have G := C14_lunar_real_good a b h
+  have hb := monthWeekCount_bounds realEph x s (G.rep x hx).2.2
+  exact ⟨hb.1, hb.2, C14_gen_count (lunarOps realEph) x i s⟩
+
+/-- `LunarMonth::get_weeks(start)` lists exactly the weeks 0, 1, …, count−1 of the month, in order -/
+theorem C14_lunar_real_weeks_list (a b : Int) (h : LunarGoodInterval a b) (y m s : Int) (x : Month)
+    (hf : fromYm realEph y m = some x) (hx : okOn realEph a b x) (hs : 0 ≤ s ∧ s ≤ 6) (l : List LunarWeek) :
+    lunarWeeks realEph y m s = some l ↔
+      (l.length = (monthWeekCount realEph x s).toNat ∧ ∀ (k : Nat) (hk : k < l.length), l[k] = ⟨x, k, s⟩) :=
+  lunarWeeks_iff realEph y m s x hf ((C14_lunar_real_good a b h).rep x hx).2.2 hs l
+
+/-- the first day: the day number `firstJ` falls on the start weekday, and whatever `get_first_day` returns is the
+lunar day (month of the interval, day 1..len) with exactly that day number, whose civil date is the date with that
+day number — for every week whose first day lies in the interval and in the civil years a..b -/
+theorem C14_lunar_real_first_day (a b : Int) (h : LunarGoodInterval a b) (w : LunarWeek) (hw : LunarWeekOk a b w)
+    (hY : a ≤ (ofJdn (firstJ (lunarOps realEph) w)).1 ∧ (ofJdn (firstJ (lunarOps realEph) w)).1 ≤ b)
+    (hlo : Lunar.first realEph ⟨a, 0⟩ ≤ firstJ (lunarOps realEph) w)
+    (r : LDay) (hr : lunarWeekFirstDay realEph w = some r) :
+    weekOfJdn (firstJ (lunarOps realEph) w) = w.start ∧
+    okOn realEph a b r.1 ∧ 1 ≤ r.2 ∧ r.2 ≤ Lunar.len realEph r.1 ∧
+    Lunar.first realEph r.1 + r.2 - 1 = firstJ (lunarOps realEph) w ∧
+    daySolar realEph r.1 r.2 = some (ofJdn (firstJ (lunarOps realEph) w)) := by
+  have G := C14_lunar_real_good a b h
+  obtain ⟨o, e, k1, k2⟩ := lunarWeekFirstDay_spec G w hw hY hlo r hr
+  obtain ⟨r1, r2, _⟩ := G.rep r.1 o
+  have := (daySolar_in_range realEph r.1 r.2 (by omega) (by omega)).1
+  rw [e] at this
+  exact ⟨C14_gen_first_weekday (lunarOps realEph) w ⟨hw.2.1, hw.2.2.1⟩, o, k1, k2, e, this⟩
+
+/-- seven consecutive days: whatever `get_days` returns is a list of 7 lunar days (month of the interval, day
+1..len) with the day numbers firstJ, firstJ+1, …, firstJ+6 — for every week whose seven days lie in the interval
+and in the civil years a..b -/
+theorem C14_lunar_real_days (a b : Int) (h : LunarGoodInterval a b) (w : LunarWeek) (hw : LunarWeekOk a b w)
+    (hY : ∀ k : Nat, k < 7 → a ≤ (ofJdn (firstJ (lunarOps realEph) w + k)).1 ∧ (ofJdn (firstJ (lunarOps realEph) w + k)).1 ≤ b)
+    (hlo : Lunar.first realEph ⟨a, 0⟩ ≤ firstJ (lunarOps realEph) w)
+    (hhi : firstJ (lunarOps realEph) w + 6 < Lunar.first realEph ⟨b + 1, 0⟩)
+    (l : List LDay) (hl : lunarWeekDays realEph w = some l) :
+    l.length = 7 ∧ ∀ (k : Nat) (hk : k < l.length),
+      okOn realEph a b l[k].1 ∧ 1 ≤ l[k].2 ∧ l[k].2 ≤ Lunar.len realEph l[k].1 ∧
+      Lunar.first realEph l[k].1 + l[k].2 - 1 = firstJ (lunarOps realEph) w + k := by
+  obtain ⟨h7, hall⟩ := lunarWeekDays_spec (C14_lunar_real_good a b h) w hw hY hlo hhi l hl
+  refine ⟨h7, fun k hk => ?_⟩
+  obtain ⟨o, e, k1, k2⟩ := hall k hk
+  exact ⟨o, k1, k2, e⟩
+
+/-- successive weeks start 7 days apart, and no day of the month is lost -/
+theorem C14_lunar_real_spacing_cover (x : Month) (s : Int) :
+    (∀ i, firstJ (lunarOps realEph) ⟨x, i + 1, s⟩ = firstJ (lunarOps realEph) ⟨x, i, s⟩ + 7) ∧
+    (∀ j, Lunar.first realEph x ≤ j → j < Lunar.first realEph x + Lunar.len realEph x →
+      ∃ i, 0 ≤ i ∧ i < monthWeekCount realEph x s ∧
+        firstJ (lunarOps realEph) ⟨x, i, s⟩ ≤ j ∧ j ≤ firstJ (lunarOps realEph) ⟨x, i, s⟩ + 6) :=
+  ⟨fun i => C14_gen_spacing (lunarOps realEph) x i s, fun j h1 h2 => C14_gen_cover (lunarOps realEph) x s j h1 h2⟩
+
+/-- stepping a lunar week by ANY n: whenever the target week still meets the interval, `LunarWeek::next(n)`
+ANSWERS (the loops never run out of fuel, no weekday test and no re-validation fails), and the answer is a
+well-formed week of the interval with the same start whose first day is exactly 7n days later -/
+theorem C14_lunar_real_next_7n (a b : Int) (h : LunarGoodInterval a b) (w : LunarWeek) (hw : LunarWeekOk a b w) (n : Int)
+    (hlo : Lunar.first realEph ⟨a, 0⟩ ≤ firstJ (lunarOps realEph) w + 7 * n + 6)
+    (hhi : firstJ (lunarOps realEph) w + 7 * n < Lunar.first realEph ⟨b + 1, 0⟩) :
+    ∃ w', lunarWeekNext realEph w n = some w' ∧ LunarWeekOk a b w' ∧ w'.start = w.start ∧
+      firstJ (lunarOps realEph) w' = firstJ (lunarOps realEph) w + 7 * n := by
+  have G := C14_lunar_real_good a b h
+  have hspec := weekNext_spec (lunarOpsOn realEph a b) (okOn realEph a b) G.laws w hw n
+  cases hn : weekNext (lunarOpsOn realEph a b) w n with
+  | some w' =>
+    rw [hn] at hspec
+    exact ⟨w', lunarWeekNext_of G w hw n w' hn, hspec⟩
+  | none =>
+    exfalso
+    rw [hn] at hspec
+    dsimp only at hspec
+    rw [firstJ_on] at hspec
+    rcases hspec with ⟨_, m', hm', hnn, hle⟩ | ⟨_, m', hm', hnn, hle⟩
+    · have := on_next_none realEph G.leap_le a b G.b9 G.tiles m' hm' hnn
+      have e1 : (lunarOpsOn realEph a b).first m' = Lunar.first realEph m' := rfl
+      have e2 : (lunarOpsOn realEph a b).len m' = Lunar.len realEph m' := rfl
+      rw [e1, e2] at hle
+      omega
+    · have := on_prev_none realEph G.leap_le a b G.a0 m' hm' hnn
+      subst this
+      have e1 : (lunarOpsOn realEph a b).first ⟨a, 0⟩ = Lunar.first realEph ⟨a, 0⟩ := rfl
+      rw [e1] at hle
+      omega
+
+/-- …conversely, whenever `next(n)` of the cut instance is refused the target week lies outside the interval
+(so inside a good interval a refusal never happens) -/
+theorem C14_lunar_real_next_refused (a b : Int) (h : LunarGoodInterval a b) (w : LunarWeek) (hw : LunarWeekOk a b w) (n : Int)
+    (hn : weekNext (lunarOpsOn realEph a b) w n = none) :
+    (0 < n ∧ Lunar.first realEph ⟨b + 1, 0⟩ ≤ firstJ (lunarOps realEph) w + 7 * n) ∨
+    (n < 0 ∧ firstJ (lunarOps realEph) w + 7 * n + 7 ≤ Lunar.first realEph ⟨a, 0⟩) := by
+  have G := C14_lunar_real_good a b h
+  have hspec := weekNext_spec (lunarOpsOn realEph a b) (okOn realEph a b) G.laws w hw n
+  rw [hn] at hspec
+  dsimp only at hspec
+  rw [firstJ_on] at hspec
+  rcases hspec with ⟨hp, m', hm', hnn, hle⟩ | ⟨hp, m', hm', hnn, hle⟩
+  · left
+    have := on_next_none realEph G.leap_le a b G.b9 G.tiles m' hm' hnn
+    have e1 : (lunarOpsOn realEph a b).first m' = Lunar.first realEph m' := rfl
+    have e2 : (lunarOpsOn realEph a b).len m' = Lunar.len realEph m' := rfl
+    rw [e1, e2] at hle
+    exact ⟨hp, by omega⟩
+  · right
+    have := on_prev_none realEph G.leap_le a b G.a0 m' hm' hnn
+    subst this
+    exact ⟨hp, hle⟩
+
+/-- full-strength statement of the first-day clause over ALL lunar years (FALSE on the unchanged code at the D4
+junctions, see `C14_lunar_real_first_day_full_false`; `C14_lunar_real_first_day` is the proved part) -/
+def C14_lunar_real_first_day_full : Prop :=
+  ∀ (w : LunarWeek) (r : LDay), WF realEph w.month → 0 ≤ w.start ∧ w.start ≤ 6 →
+    0 ≤ w.index ∧ w.index < monthWeekCount realEph w.month w.start →
+    lunarWeekFirstDay realEph w = some r → Lunar.first realEph r.1 + r.2 - 1 = firstJ (lunarOps realEph) w
+
+/-- D4 witness (known finding D4-c14-ad9-weeks): week 0 (start Sunday) of lunar month 8-12 begins on day number
+1724358, but `get_first_day` answers the lunar day 8-12-29, whose day number is 1724388 (the lunar months 8-12 and
+9-1 of the table are the same lunation) -/
+theorem C14_lunar_real_first_day_full_false : ¬ C14_lunar_real_first_day_full := by
+  intro hfull
+  have h1 : lunarWeekFirstDay realEph ⟨⟨8, 12⟩, 0, 0⟩ = some (⟨8, 12⟩, 29) := by decide +kernel
+  have h2 : WF realEph ⟨8, 12⟩ := by
+    refine ⟨by decide, by decide, ?_⟩
+    show 12 < realEph.cnt 8
+    decide +kernel
+  have h3 : monthWeekCount realEph ⟨8, 12⟩ 0 = 5 ∧ Lunar.first realEph ⟨8, 12⟩ = 1724360 ∧
+      firstJ (lunarOps realEph) ⟨⟨8, 12⟩, 0, 0⟩ = 1724358 := by decide +kernel
+  have := hfull ⟨⟨8, 12⟩, 0, 0⟩ (⟨8, 12⟩, 29) h2 ⟨by decide, by decide⟩ ⟨by decide, by rw [h3.1]; decide⟩ h1
+  rw [h3.2.2] at this
+  dsimp only at this
+  rw [h3.2.1] at this
+  omega
+
+/-! ### non-vacuity of the lunar theorems: concrete weeks of the extracted table (kernel evaluation) -/
+
+example : LunarGoodInterval 240 9998 ∧ LunarWeekOk 240 9998 ⟨⟨2024, 0⟩, 0, 0⟩ ∧
+    lunarWeekNew realEph 2024 1 0 0 = some ⟨⟨2024, 0⟩, 0, 0⟩ ∧ monthWeekCount realEph ⟨2024, 0⟩ 0 = 5 ∧
+    lunarWeekFirstDay realEph ⟨⟨2024, 0⟩, 0, 0⟩ = some (⟨2023, 12⟩, 25) ∧
+    daySolar realEph ⟨2023, 12⟩ 25 = some (2024, 2, 4) ∧
+    lunarWeekNext realEph ⟨⟨2024, 0⟩, 0, 0⟩ 10 = some ⟨⟨2024, 2⟩, 1, 0⟩ ∧
+    lunarWeekNext realEph ⟨⟨2024, 0⟩, 0, 0⟩ (-60) = some ⟨⟨2022, 10⟩, 3, 0⟩ := by
+  refine ⟨Or.inr (Or.inr (Or.inr (Or.inr ⟨rfl, rfl⟩))), ?_, by decide +kernel, by decide +kernel, by decide +kernel,
+    by decide +kernel, by decide +kernel, by decide +kernel⟩
+  refine ⟨⟨⟨by decide, by decide, ?_⟩, by decide, by decide⟩, by decide, by decide, by decide, ?_⟩
+  · show 0 < realEph.cnt 2024
+    decide +kernel
+  · show (0 : Int) < monthWeekCount realEph ⟨2024, 0⟩ 0
+    decide +kernel
+
+/-- the listed days of a week that runs from a leap month into the next month -/
+example : (lunarWeekDays realEph ⟨⟨2023, 2⟩, 4, 1⟩).map (fun l => l.map fun d => (d.1.y, monthWithLeap realEph d.1, d.2)) =
+    some [(2023, -2, 27), (2023, -2, 28), (2023, -2, 29), (2023, 3, 1), (2023, 3, 2), (2023, 3, 3), (2023, 3, 4)] := by
+  decide +kernel
 
 end Tyme
